@@ -38,7 +38,7 @@ def preload():
 def configs(tier, seed):
     ns = 2 if tier == "quick" else 3
     out = []
-    for op in ("add", "set", "get", "list", "add-dotted", "set-dotted-key", "set-unknown"):
+    for op in ("add", "set", "get", "is", "list", "add-dotted", "set-dotted-key", "set-unknown"):
         out.append({"name": f"base-{op}", "kind": "base", "op": op, "ns": ns, "np": 3})
     for op in ("add", "set", "get"):
         out.append({"name": f"instance-{op}", "kind": "instance", "op": op, "nf": 2 if tier == "quick" else 3})
@@ -58,6 +58,10 @@ SHORTS = ["x", "y", "z"]
 
 def full(p):
     return f"{p.__module__}.{p.__name__}"
+
+
+KEY_FORMS = [lambda sh, fu: sh, lambda sh, fu: fu, lambda sh, fu: sh.upper(), lambda sh, fu: fu.swapcase(), lambda sh, fu: fu.lower(),
+             lambda sh, fu: sh + " ", lambda sh, fu: fu[:-1], lambda sh, fu: fu.rsplit(".", 1)[1]]
 
 
 def run_config(cfg, rec):
@@ -122,10 +126,15 @@ def _run_base(cfg, rec):
                     br.set_plugin(out["key"], full(PLUGINS[p]), registry, "name")
                 elif op == "set-unknown":
                     br.set_plugin(SHORTS[s], ["nodots", "verif.plugins.unknown.Nope"][p % 2], registry, "name")
-                elif op == "get":
-                    key = SHORTS[s] if ctx.choose(2, "by_full") == 0 else full(PLUGINS[p])
+                elif op in ("get", "is"):
+                    # the key family: the exact short / full name and near misses of each (other letter case, surrounding blank,
+                    # a proper prefix) - names that are *not* registered unless the pre-state happens to hold them
+                    key = KEY_FORMS[ctx.choose(len(KEY_FORMS), "key_form")](SHORTS[s], full(PLUGINS[p]))
                     out["key"] = key
-                    out["got"] = br.get_plugin_from_registry(key, registry, f"not found: {key}")
+                    if op == "is":
+                        out["got"] = br.is_registered_plugin(key, registry)
+                    else:
+                        out["got"] = br.get_plugin_from_registry(key, registry, f"not found: {key}")
                 elif op == "list":
                     out["got"] = (br.registered_plugins(registry), br.registered_plugins(registry, full_names=True))
                 out["exc"] = None
@@ -197,6 +206,10 @@ def _run_base(cfg, rec):
             else:
                 items.append(("lookup of an unknown name raises ValueError with the message passed in",
                               z3.BoolVal(isinstance(exc, ValueError) and str(exc) == f"not found: {key}" and unchanged), "registry:get:unknown"))
+        elif op == "is":
+            exp = _concretise(short, reg)
+            items.append(("is_registered_plugin answers exactly whether a lookup of that name would succeed",
+                          z3.BoolVal(exc is None and out["got"] is (out["key"] in exp) and unchanged), "registry:is-registered"))
         elif op == "list":
             exp = _concretise(short, reg)
             items.append(("registered_plugins lists exactly the short names (all names with full_names), sorted",
@@ -327,7 +340,12 @@ def _run_public(cfg, rec):
         order = ctx.choose(2, "order")  # which of the two classes registers first
         explicit = ctx.choose(2, "explicit_format")  # explicit format name vs inferred from the extension
         repoint = ctx.choose(2, "repoint")  # set_*_plugin to the second-registered class afterwards
-        out = {"order": order, "explicit": explicit, "repoint": repoint, "calls": []}
+        unk = ctx.choose(4, "unknown_form")  # which not-registered name is looked up: unrelated, or a near miss of a registered one
+        out = {"order": order, "explicit": explicit, "repoint": repoint, "calls": [], "unk": unk}
+
+        def unknown_name(short, fullname):
+            return ["nope", short.upper(), short + " ", fullname.swapcase()][unk]
+
         with warnings.catch_warnings(record=True) as wl:
             warnings.simplefilter("always")
             if reg == "megacomplex":
@@ -346,7 +364,7 @@ def _run_public(cfg, rec):
                     out["full_ok"] = (mr.get_megacomplex(f"{first.__module__}.{first.__name__}") is first
                                       and mr.get_megacomplex(f"{second.__module__}.{second.__name__}") is second)
                     try:
-                        mr.get_megacomplex("nope")
+                        mr.get_megacomplex(unknown_name("vmc", f"{first.__module__}.{first.__name__}"))
                         out["unknown"] = None
                     except ValueError as ex:
                         out["unknown"] = str(ex)
@@ -400,7 +418,7 @@ def _run_public(cfg, rec):
                                           and type(dr.get_data_io("vf2")) is second
                                           and type(dr.get_data_io("vf3")) is first)  # a sibling name of the re-pointed one stays put
                         try:
-                            dr.get_data_io("nope")
+                            dr.get_data_io(unknown_name("vfmt", f"{first.__module__}.{first.__name__}_vfmt"))
                             out["unknown"] = None
                         except ValueError as ex:
                             out["unknown"] = str(ex)
@@ -418,7 +436,7 @@ def _run_public(cfg, rec):
                                           and type(pr.get_project_io("vf2")) is second
                                           and type(pr.get_project_io("vf3")) is first)  # a sibling name of the re-pointed one stays put
                         try:
-                            pr.get_project_io("nope")
+                            pr.get_project_io(unknown_name("vfmt", f"{first.__module__}.{first.__name__}_vfmt"))
                             out["unknown"] = None
                         except ValueError as ex:
                             out["unknown"] = str(ex)
@@ -449,7 +467,7 @@ def _run_public(cfg, rec):
                           z3.BoolVal(out["loaded"] == f"loaded-by-{want_name}" and out["calls"] == [(want_name, "load", "vfmt")]),
                           f"registry:public-{reg}:dispatch"))
         rec.check_all(ctx, items, wit)
-        rec.want_sample() and rec.sample({k: (v.__name__ if isinstance(v, type) else v) for k, v in out.items() if k in ("order", "explicit", "repoint", "resolved", "warnings")})
+        rec.want_sample() and rec.sample({k: (v.__name__ if isinstance(v, type) else v) for k, v in out.items() if k in ("order", "explicit", "repoint", "resolved", "warnings", "unk")})
     rec.validate("public", {}, {"ok": True})
 
 
